@@ -104,6 +104,9 @@ func (e *EventEmitter) handleSubscriber(ctx context.Context, sub event.Subscript
 	cevent := make(chan Event, 16)
 	condProcess := sync.NewCond(&sync.Mutex{})
 	queue := list.New()
+	// draining is true while an event has been taken off the queue but is
+	// not yet in cevent; guarded by condProcess.L
+	draining := false
 	wg := sync.WaitGroup{}
 
 	wg.Add(1)
@@ -125,7 +128,7 @@ func (e *EventEmitter) handleSubscriber(ctx context.Context, sub event.Subscript
 			}
 
 			condProcess.L.Lock()
-			if queue.Len() == 0 {
+			if queue.Len() == 0 && !draining {
 				// try to push event to the queue
 				select {
 				case cevent <- e:
@@ -154,6 +157,7 @@ func (e *EventEmitter) handleSubscriber(ctx context.Context, sub event.Subscript
 			}
 
 			e := queue.Remove(queue.Front())
+			draining = true
 
 			// Unlock cond mutex while sending the event
 			condProcess.L.Unlock()
@@ -165,6 +169,7 @@ func (e *EventEmitter) handleSubscriber(ctx context.Context, sub event.Subscript
 			}
 
 			condProcess.L.Lock()
+			draining = false
 		}
 		condProcess.L.Unlock()
 
